@@ -12,7 +12,7 @@ PROPS = {
     'C01': 'vf.p_c01', 'C02': 'vf.p_c02', 'C06': 'vf.p_c06', 'C19': 'vf.p_c19',
     'C04': 'vf.p_c04', 'C10': 'vf.p_c10', 'C11': 'vf.p_c11',
     'C03': 'vf.p_c03', 'C05': 'vf.p_c05', 'C07': 'vf.p_c07', 'C08': 'vf.p_c08', 'C09': 'vf.p_c09',
-    'C13': 'vf.p_c13', 'C14': 'vf.p_c14', 'C15': 'vf.p_c15',
+    'C12': 'vf.p_c12', 'C13': 'vf.p_c13', 'C14': 'vf.p_c14', 'C15': 'vf.p_c15', 'C16': 'vf.p_c16', 'C17': 'vf.p_c17',
 }
 
 
